@@ -290,8 +290,11 @@ pub fn project_with(raw: &Raw, own: &OwnN, tol: f64, delta: f64, forced: bool) -
                 let joint_ok = blown || close(joint, j_own, tol * 20.0) || (!joint.is_finite() && !j_own.is_finite());
                 let dj = joint - logu;
                 let dj_sign = if joint.is_nan() || logu.is_nan() { 2 } else if logu < joint { 1 } else if logu == joint { 0 } else { -1 };
-                let a_own = (joint - joint0).exp().min(1.0);
-                let alpha_ok = close(alpha, a_own, 1e-3) || (a_own.is_nan() && (alpha == 1.0 || alpha.is_nan()));
+                // (f64::min ignores a NaN operand: keep the NaN explicit)
+                let a_own = if (joint - joint0).is_nan() { f64::NAN } else { (joint - joint0).exp().min(1.0) };
+                // min(1, exp(NaN)) is not defined by the property: a leaf of undefined energy may count 0 (rejection), NaN, or --
+                // the pinned code before the fix -- 1; what that does to the step size is C04's business (finite throughout)
+                let alpha_ok = close(alpha, a_own, 1e-3) || (a_own.is_nan() && (alpha == 0.0 || alpha == 1.0 || alpha.is_nan()));
                 leaf_alpha_sum += alpha;
                 out.tree.push(json!({"e": "leaf", "v": v, "off": off, "n": ints[1], "s": ints[2], "lf_ok": lf_ok, "joint_ok": joint_ok,
                     "dj": fx16(dj), "dj_sign": dj_sign, "ds": fx16(joint - (logu - 1000.0)), "alpha_ok": alpha_ok,
